@@ -84,7 +84,11 @@ class C12(Spec):
                 cap = rng.choice([1, 1, 2, 3, 4, 7, 8, 15, 16, 31, 64, rng.randint(1, 64)])
                 ng = rng.randint(0, nch + 1)
                 grows = [None if rng.random() < 0.3 else [rng.choice([0, 0, 1, 5, 40]), rng.randint(0, 255)] for _ in range(ng)]
-                cases.append({"kind": kind, "cap": cap, "fill": rng.randint(0, 255), "chunks": chunks, "grows": grows})
+                via = rng.choice(["str", "str", "char", "fmt"])
+                if via == "char":       # one write per character (multi-byte characters cross the capacity in one piece)
+                    chunks = [b(c) for ch in chunks for c in bytes(ch).decode("utf-8")] or chunks
+                    grows = grows + [None if rng.random() < 0.3 else [rng.choice([0, 1, 5]), rng.randint(0, 255)] for _ in range(len(chunks))]
+                cases.append({"kind": kind, "cap": cap, "fill": rng.randint(0, 255), "chunks": chunks, "grows": grows, "via": via})
             elif kind == "simple":
                 cases.append({"kind": kind, "bufsize": rng.choice([1, 2, 3, 5, 8, 16, 33, rng.randint(1, 64)]),
                               "fill": rng.randint(1, 255), "chunks": chunks})
